@@ -157,12 +157,17 @@ structure CMake where
   text : String             -- bytes of CMakeLists.txt
   deriving Repr
 
-/-- `printSchemaFilenames(sch)` + `writeLists` -/
-def cmake (path : String) (s : Schema) : CMake :=
+/-- the short name `writeLists` uses, given the number of schemas in the input file: with `perSchema` (fix C17-3) a file that
+    holds several schemas gives each of them its schema name -/
+def shortNameIn (perSchema : Bool) (nSchemas : Nat) (path longName : String) : String :=
+  if perSchema && nSchemas > 1 then "sdai_" ++ longName else makeShortName path longName
+
+/-- `printSchemaFilenames(sch)` + `writeLists`; `nSchemas` = the number of schemas in the file (it only enters the short name) -/
+def cmake (path : String) (s : Schema) (nSchemas : Nat := 1) (perSchema : Bool := shortNamePerSchema) : CMake :=
   let ents := s.entities
   let tys := s.types.filter listsType
   let up := strToUpper s.name
-  let short := makeShortName path s.name
+  let short := shortNameIn perSchema nSchemas path s.name
   let eh := ents.map entityHeader
   let ei := ents.map entityImpl
   let th := tys.map typeHeader
@@ -178,10 +183,15 @@ def CMake.listed (c : CMake) : List String :=
 
 /-- the file system effect of `main`: for every schema, in order, (re)write `<short>/CMakeLists.txt`; a later
     write to the same path replaces the earlier one.  Result: final content per directory, and stdout lines. -/
-def run (f : SchemaFile) : List (String × CMake) × List String :=
-  let cs := f.schemas.map (cmake f.path)
+def runWith (perSchema skipCodeless : Bool) (f : SchemaFile) : List (String × CMake) × List String :=
+  -- a schema whose dictionary holds neither a type (of any kind) nor an entity is left out when `skipCodeless` (fix C17-4)
+  let described := f.schemas.filter fun s => !(skipCodeless && s.entities.isEmpty && s.types.isEmpty)
+  let cs := described.map fun s => cmake f.path s f.schemas.length perSchema
   let final := cs.foldl (fun acc c => (acc.filter (fun p => p.1 != c.shortName)) ++ [(c.shortName, c)]) []
   (final, cs.map (·.shortName))
+
+/-- … as the tree does it (both switches regenerated) -/
+def run (f : SchemaFile) : List (String × CMake) × List String := runWith shortNamePerSchema skipsCodelessSchemas f
 
 end Scanner
 
